@@ -191,7 +191,7 @@ def _own_pool(chunks, nproc, merge, m, t0, budget_s, label):
     for w in range(nproc):
         task_q.put(None)
     for w in range(nproc):
-        p = ctx.Process(target=_worker_loop, args=(w, chunks, task_q, res_q), daemon=True)
+        p = ctx.Process(target=_worker_loop, args=(w, chunks, task_q, res_q), daemon=False)
         p.start()
         procs[w] = p
     current = {}
@@ -207,7 +207,7 @@ def _own_pool(chunks, nproc, merge, m, t0, budget_s, label):
                     ci = current.pop(w)
                     retry.append(ci)
                     done += 1
-                    np_ = ctx.Process(target=_worker_loop, args=(w, chunks, task_q, res_q), daemon=True)
+                    np_ = ctx.Process(target=_worker_loop, args=(w, chunks, task_q, res_q), daemon=False)
                     task_q.put(None)
                     np_.start()
                     procs[w] = np_
